@@ -714,7 +714,9 @@ NAT_PLANS = ["-", "L1:1:b", "L0:1:e,L1:4:b", "X:2", "X:4,L2:5:b", "X:6,L1:2:e", 
              # task_group reuse: persistent inner groups bound in round 0, every wait() resets, an outer group cancelled in the last round
              "TG:1:0:2", "TG:2:0:2", "TG:2:1:3", "TG:3:0:2", "TG:3:2:2", "TG:1:0:3",
              # contexts bound by an external thread that stays (EX:0) / exits before its contexts are used again and cancelled (EX:1)
-             "EX:0", "EX:1"]
+             "EX:0", "EX:1",
+             # a context bound on the only worker, which has (PK:1) / has not (PK:0) left the arena and gone to sleep when the ancestor is cancelled
+             "PK:0", "PK:1"]
 
 
 def natural_family(ck, seed, quick):
